@@ -22,6 +22,11 @@ type access struct {
 	fn    string
 }
 
+type tlsModel struct {
+	conn   IfaceV
+	client bool
+}
+
 type trackState struct {
 	cur  int
 	logs map[int][]access
@@ -202,6 +207,51 @@ func registerLocksetNatives(in *Interp) {
 		}
 		o := in.newObj(constMem(b), nil, "ecdhpubbytes")
 		return SliceV{Base: Ptr{Obj: o}, Off: in.tb.Int(0), Len: in.tb.Int(65), Cap: in.tb.Int(65), Byte: true, Max: 65}
+	}
+	// crypto/tls over a caller-supplied net.Conn (cedar tunnels TLS records through
+	// CEDAR messages): only the I/O pattern of the handshake is modelled -- the
+	// client writes then reads, the server reads then writes, each once, through the
+	// connection it was given; the first error ends the handshake. Nothing of the
+	// TLS state machine, certificates or keys is modelled.
+	mkTLS := func(client bool) nativeFn {
+		return func(in *Interp, fn *ssa.Function, args []Value) Value {
+			return Ptr{Obj: in.newObj(in.newModel("tlsconn", &tlsModel{conn: args[0].(IfaceV), client: client}), nil, "tlsconn")}
+		}
+	}
+	n["crypto/tls.Client"] = mkTLS(true)
+	n["crypto/tls.Server"] = mkTLS(false)
+	tlsIO := func(in *Interp, p Ptr) Value {
+		if p.Obj == nil {
+			in.nilDeref()
+		}
+		tm := p.Obj.Val.(*ModelObj).Data.(*tlsModel)
+		callConn := func(method string) IfaceV {
+			f := in.prog.LookupMethod(tm.conn.T, nil, method)
+			if f == nil {
+				panic("tls model: connection has no " + method)
+			}
+			o := in.newObj(zeroMem, nil, "tlsbuf")
+			buf := SliceV{Base: Ptr{Obj: o}, Off: in.tb.Int(0), Len: in.tb.Int(16), Cap: in.tb.Int(16), Byte: true, Max: 16}
+			r := in.call(f, []Value{tm.conn.V, buf}).(TupleV)
+			return r[1].(IfaceV)
+		}
+		order := []string{"Read", "Write"}
+		if tm.client {
+			order = []string{"Write", "Read"}
+		}
+		for _, m := range order {
+			if e := callConn(m); e.T != nil {
+				return e
+			}
+		}
+		return IfaceV{}
+	}
+	n["(*crypto/tls.Conn).Handshake"] = func(in *Interp, fn *ssa.Function, args []Value) Value { return tlsIO(in, args[0].(Ptr)) }
+	n["(*crypto/tls.Conn).HandshakeContext"] = func(in *Interp, fn *ssa.Function, args []Value) Value {
+		return tlsIO(in, args[0].(Ptr))
+	}
+	n["(*crypto/tls.Conn).ConnectionState"] = func(in *Interp, fn *ssa.Function, args []Value) Value {
+		return in.zero(fn.Signature.Results().At(0).Type()) // nothing negotiated is modelled
 	}
 	in.intrinsicsExtra["vTrackBegin"] = func(in *Interp, args []Value) Value {
 		if in.track == nil {
